@@ -508,6 +508,7 @@ type vfC13pSys struct {
 	free      *vfC13pFreeScript
 	trace     *vfh.Trace
 	closedSvc bool
+	closeDone chan struct{}
 }
 
 type vfC13pSaved struct {
@@ -954,4 +955,308 @@ func (s *vfC13pSys) noteNewStream(c *vfC13pConn) {
 	if l := s.led[c.name]; s.gated && l != nil && l.discTick > 0 {
 		s.mm = append(s.mm, vfC13pMM{"push-to-disconnected-conn", "identify tried to open a stream on " + c.name + " after its Disconnected notification", nil, nil})
 	}
+}
+
+type vfC13pSt struct {
+	Hc     int  `json:"hc"`
+	Evq    int  `json:"evq"`
+	Closed bool `json:"closed"`
+	Stable bool `json:"stable"`
+	Snap   struct {
+		Seq int `json:"seq"`
+		C   int `json:"c"`
+	} `json:"snap"`
+	C map[string]struct {
+		Cs     string `json:"cs"`
+		Ps     string `json:"ps"`
+		Last   int    `json:"last"`
+		G      string `json:"g"`
+		Pushed []int  `json:"pushed"`
+		Dc     int    `json:"dc"`
+	} `json:"c"`
+}
+
+func (s *vfC13pSys) stage(c *vfC13pConn) string {
+	c.mu.Lock()
+	st := c.push
+	c.mu.Unlock()
+	switch {
+	case st == nil:
+		return "none"
+	case st.passed == 0 && st.openGate.here():
+		return "open"
+	case st.passed == 1 && st.writeGate.here():
+		return "write"
+	}
+	return "running"
+}
+
+// apply executes one model action.  A returned error is a machinery problem.
+func (s *vfC13pSys) apply(op vfh.Op, allowRec bool, names []string) ([]vfC13pMM, error) {
+	var mm []vfC13pMM
+	name := op.S("c")
+	c := s.conns[name]
+	switch op.Name() {
+	case "connected":
+		idx := sort.SearchStrings(names, name)
+		c = s.connect(name, idx)
+	default:
+		if name != "" && c == nil {
+			return nil, fmt.Errorf("op %v on a connection that does not exist", op)
+		}
+	}
+	switch op.Name() {
+	case "connected", "rstart", "pick", "rec", "rend":
+	case "change":
+		if _, err := s.change(op.S("kind"), op.I("hc"), allowRec); err != nil {
+			return nil, err
+		}
+	case "update":
+		s.mu.Lock()
+		g := s.upd
+		s.upd = nil
+		s.mu.Unlock()
+		if g == nil || !g.here() {
+			mm = append(mm, vfC13pMM{"L2:no-event-pending", "the loop is not waiting in updateSnapshot although an event is pending in the model", nil, nil})
+			break
+		}
+		g.ch <- "ok"
+		synctest.Wait()
+		s.ids.currentSnapshot.Lock()
+		seq := int(s.ids.currentSnapshot.snapshot.seq)
+		s.ids.currentSnapshot.Unlock()
+		if seq != op.I("seq") {
+			mm = append(mm, vfC13pMM{"L2:snapshot-seq", "sequence number after updateSnapshot", op.I("seq"), seq})
+		}
+	case "open", "write":
+		stg := s.stage(c)
+		if stg != op.Name() {
+			mm = append(mm, vfC13pMM{"L2:goroutine-stage", fmt.Sprintf("push goroutine of %s before %s", name, op.Name()), op.Name(), stg})
+			break
+		}
+		c.mu.Lock()
+		st := c.push
+		c.mu.Unlock()
+		before := len(s.led[name].deliv)
+		how := "ok"
+		if !op.B("ok") {
+			how = [2][2]string{{"setproto", "refuse"}, {"reset", "scope"}}[map[string]int{"open": 0, "write": 1}[op.Name()]][s.rnd.Intn(2)]
+		}
+		if op.Name() == "open" {
+			st.openGate.ch <- how
+		} else {
+			st.writeGate.ch <- how
+		}
+		synctest.Wait()
+		s.mu.Lock()
+		after := s.led[name].deliv
+		s.mu.Unlock()
+		if op.Name() == "write" {
+			got := len(after) - before
+			if want := map[bool]int{true: 1, false: 0}[op.B("ok")]; got != want {
+				mm = append(mm, vfC13pMM{"L2:deliveries", fmt.Sprintf("messages delivered on %s by write(ok=%v)", name, op.B("ok")), want, got})
+			} else if got == 1 {
+				s.mu.Lock()
+				sv, ok := s.saved[op.I("content")]
+				s.mu.Unlock()
+				if ok {
+					var a [][]byte
+					for _, m := range sv.addrs {
+						a = append(a, m.Bytes())
+					}
+					if want := vfC13pKey(protocol.ConvertToStrings(sv.protos), a, sv.rec); after[len(after)-1].Key != want {
+						mm = append(mm, vfC13pMM{"L2:push-content", "content pushed to " + name + " vs the model's snapshot content", want, after[len(after)-1].Key})
+					}
+				}
+			}
+		}
+	case "identified":
+		if err := s.identify(c, op.B("sup")); err != nil {
+			mm = append(mm, vfC13pMM{"L2:no-identify-in-flight", err.Error(), nil, nil})
+		}
+	case "idresp":
+		if err := s.idresp(c); err != nil {
+			return nil, err
+		}
+	case "connclose":
+		c.mu.Lock()
+		c.closed = true
+		c.mu.Unlock()
+	case "disconnected":
+		s.disconnect(c)
+	case "svcclose":
+		s.closedSvc = true
+		s.closeDone = make(chan struct{})
+		go func() { s.ids.Close(); close(s.closeDone) }()
+	default:
+		return nil, fmt.Errorf("unknown op %q", op.Name())
+	}
+	synctest.Wait()
+	s.mu.Lock()
+	mm = append(mm, s.mm...)
+	s.mm = nil
+	s.mu.Unlock()
+	return mm, nil
+}
+
+// check compares what can be seen of the real service with a stable model state (all L2: in-package reads and
+// model-determined counts; the statement-level monitors run inside the ledger callbacks and in finish)
+func (s *vfC13pSys) check(st *vfC13pSt) []vfC13pMM {
+	var mm []vfC13pMM
+	s.mu.Lock()
+	waiting := s.upd != nil && s.upd.here()
+	s.mu.Unlock()
+	if !st.Closed && waiting != (st.Evq > 0) {
+		mm = append(mm, vfC13pMM{"L2:event-queue", "loop waiting in updateSnapshot", st.Evq > 0, waiting})
+	}
+	s.ids.currentSnapshot.Lock()
+	seq := int(s.ids.currentSnapshot.snapshot.seq)
+	s.ids.currentSnapshot.Unlock()
+	if seq != st.Snap.Seq {
+		mm = append(mm, vfC13pMM{"L2:snapshot-seq", "ids.currentSnapshot.seq", st.Snap.Seq, seq})
+	}
+	for name, m := range st.C {
+		c := s.conns[name]
+		if c == nil {
+			if m.Cs != "new" {
+				mm = append(mm, vfC13pMM{"L2:conn-state", name, m.Cs, "new"})
+			}
+			continue
+		}
+		s.ids.connsMu.RLock()
+		e, ok := s.ids.conns[c]
+		s.ids.connsMu.RUnlock()
+		if ok != (m.Cs == "up" || m.Cs == "closed") {
+			mm = append(mm, vfC13pMM{"L2:entry", "entry of " + name + " in ids.conns (model conn state " + m.Cs + ")", m.Cs, ok})
+			continue
+		}
+		if ok {
+			ps := map[identifyPushSupport]string{identifyPushSupportUnknown: "unknown", identifyPushSupported: "yes", identifyPushUnsupported: "no"}[e.PushSupport]
+			if ps != m.Ps {
+				mm = append(mm, vfC13pMM{"L2:push-support", "PushSupport of " + name, m.Ps, ps})
+			}
+			if int(e.Sequence) != m.Last {
+				mm = append(mm, vfC13pMM{"L2:last-seq", "entry.Sequence of " + name, m.Last, int(e.Sequence)})
+			}
+			s.mu.Lock()
+			np := 0
+			for _, d := range s.led[name].deliv {
+				if d.Kind == "push" {
+					np++
+				}
+			}
+			s.mu.Unlock()
+			if np != len(m.Pushed) {
+				mm = append(mm, vfC13pMM{"L2:deliveries", "number of pushes delivered on " + name, len(m.Pushed), np})
+			}
+		}
+		if stg := s.stage(c); stg != m.G {
+			mm = append(mm, vfC13pMM{"L2:goroutine-stage", "push goroutine of " + name, m.G, stg})
+		}
+	}
+	return mm
+}
+
+// settle lets everything that is waiting at a gate go on successfully until nothing waits any more
+func (s *vfC13pSys) settle() {
+	for round := 0; round < 100; round++ {
+		moved := false
+		s.mu.Lock()
+		g := s.upd
+		s.upd = nil
+		s.mu.Unlock()
+		if g != nil && g.here() {
+			g.ch <- "ok"
+			moved = true
+		}
+		for _, c := range s.connList() {
+			l := s.led[c.name]
+			good := !c.IsClosed() && !(l.identified > 0 && !l.sup)
+			c.mu.Lock()
+			st := c.push
+			c.mu.Unlock()
+			switch s.stage(c) {
+			case "open":
+				st.openGate.ch <- map[bool]string{true: "ok", false: "refuse"}[good]
+				moved = true
+			case "write":
+				st.writeGate.ch <- map[bool]string{true: "ok", false: "reset"}[!c.IsClosed()]
+				moved = true
+			}
+		}
+		synctest.Wait()
+		if !moved {
+			return
+		}
+	}
+}
+
+// finish: let the system come to rest, evaluate the end-of-run clauses, shut everything down
+func (s *vfC13pSys) finish() []vfC13pMM {
+	if s.gated {
+		s.settle()
+	}
+	synctest.Wait()
+	s.mu.Lock()
+	mm := append([]vfC13pMM{}, s.mm...)
+	s.mm = nil
+	final := s.hist[len(s.hist)-1]
+	lastUpd := s.updTicks[len(s.updTicks)-1]
+	// content the host had at each snapshot read; U = the last read that saw something new
+	at := func(tick int) string {
+		k := s.hist[0].Key
+		for _, h := range s.hist {
+			if h.Tick <= tick {
+				k = h.Key
+			}
+		}
+		return k
+	}
+	u := 0
+	for i := 1; i < len(s.updTicks); i++ {
+		if at(s.updTicks[i]) != at(s.updTicks[i-1]) {
+			u = s.updTicks[i]
+		}
+	}
+	if !s.closedSvc {
+		if lastUpd < final.Tick {
+			mm = append(mm, vfC13pMM{"change-never-snapshotted", "the host changed (event emitted) and updateSnapshot never read it afterwards", final.Key, at(lastUpd)})
+		}
+		for _, name := range s.order {
+			c, l := s.conns[name], s.led[name]
+			if c.closed || l.discTick > 0 || l.identified == 0 || !l.sup || u == 0 || l.connected > u {
+				continue
+			}
+			holds := len(l.deliv) > 0 && l.deliv[len(l.deliv)-1].Key == final.Key
+			excused := false
+			for _, f := range l.fails {
+				excused = excused || f > u
+			}
+			if !holds && !excused {
+				got := "nothing"
+				if len(l.deliv) > 0 {
+					got = l.deliv[len(l.deliv)-1].Key
+				}
+				mm = append(mm, vfC13pMM{"push-supporting-conn-left-behind", "at rest, " + name + " (supports push, connected since before the last snapshot change, no push attempt opened after that change has failed) does not hold the latest snapshot", final.Key, got})
+			}
+		}
+	}
+	s.mu.Unlock()
+	for _, c := range s.connList() {
+		c.mu.Lock()
+		c.closed = true
+		c.mu.Unlock()
+		c.resetAll()
+	}
+	if s.gated {
+		s.settle()
+	}
+	if !s.closedSvc {
+		s.ids.Close()
+	} else {
+		<-s.closeDone
+	}
+	s.ps.Close()
+	synctest.Wait()
+	return mm
 }
